@@ -352,7 +352,8 @@ pub fn inputs_for(name: &str, thorough: bool) -> (Vec<Inp>, Vec<Inp>) {
             vec![Inp::flat(&[1, 2, 3, 4, 5])],
         ),
         "snapshot_count" => (
-            (1..=if thorough { 6 } else { 4 }).map(|n| Inp::flat(&(1..=n).collect::<Vec<i64>>())).collect(),
+            // the last input (10, thorough 12 items) makes 11 / 13 versions pending before the first tick
+            (1..=if thorough { 6 } else { 4 }).chain([if thorough { 12 } else { 10 }]).map(|n| Inp::flat(&(1..=n).collect::<Vec<i64>>())).collect(),
             vec![Inp::flat(&[1, 2, 3, 4, 5, 6])],
         ),
         "batch_keyed_ordered" | "batch_keyed_unordered" => (
